@@ -319,3 +319,43 @@ package schema
 //@   ensures sameArray(result, errs) || isfresh(result)
 //@   loop 0 invariant len(errs) >= old(len(errs)) && (sameArray(errs, old(errs)) || isfresh(errs))
 //@   loop 0 invariant iff(len(errs) > old(len(errs)), exists(j, 0, loopidx+1, choiceBad(keyset(cfg), sch_choice(nd, j))))
+
+// The validator's view of a data node.
+//@ func (xnode).schema
+//@   nopanic
+//@   ensures result == xn_schema(self) && result != nil
+//@ func (xnode).children
+//@   params sortSpec
+//@   nopanic
+//@   ensures len(result) == xn_nchildren(self) && forall(i, 0, len(result), result[i] != nil && xn_dataname(result[i]) == xn_childname(self, i))
+//@ func (xnode).path
+//@   nopanic
+//@ func (xnode).YangDataName
+//@   nopanic
+//@   ensures result == xn_dataname(self)
+//@ axiom xnNamesetDef = forallof(c, xnode, forallstr(k, sel(xn_nameset(c), k) == exists(i, 0, xn_nchildren(c), xn_childname(c, i) == k)))
+// The node kinds are mutually exclusive: each kind interface has an unexported marker method (isLeaf, isList, ...)
+// that only the corresponding implementation (or a type embedding exactly one kind) can provide.
+//@ axiom kindsExclusive = forallof(n, Node, !(is(n, Leaf) && is(n, List)) && !(is(n, Leaf) && is(n, LeafList)) && !(is(n, Leaf) && is(n, Container)) &&
+//@        !(is(n, List) && is(n, LeafList)) && !(is(n, List) && is(n, Container)) && !(is(n, LeafList) && is(n, Container)))
+
+// checkMandatory: under an existing node every schema child outside a choice that is absent must not be mandatory
+// (looking through non-presence containers), and the choices are satisfied.
+//@ define cand(c) = (kLeaf(c) && sch_mandatory(c)) || (kList(c) && sch_min(c) > 0) || (kLeafList(c) && sch_min(c) > 0) || (kContainer(c) && !sch_presence(c))
+//@ define absentUnder(S, s) = exists(i, 0, sch_nchildren(s), !choiceHolds(s, sch_child(s, i)) && !sel(S, node_name(sch_child(s, i))) && mandAbsent(sch_child(s, i)))
+//@ define skips(c, vt) = vt == DontValidate || (vt == ValidateState && node_config(xn_schema(c))) || (vt == ValidateConfig && !node_config(xn_schema(c)))
+//@ define distinctNames(s) = forall(i, 0, sch_nchildren(s), forall(j, i+1, sch_nchildren(s), node_name(sch_child(s, i)) != node_name(sch_child(s, j))))
+//@ define wanted(s, i) = cand(sch_child(s, i)) && !choiceHolds(s, sch_child(s, i))
+//@ func checkMandatory
+//@   uses xnNamesetDef, kindsExclusive
+//@   requires c != nil && distinctNames(xn_schema(c)) && 0 <= valType && valType <= 3
+//@   ensures implies(skips(c, valType), result2 && len(result1) == 0)
+//@   ensures implies(!skips(c, valType), result2 == (len(result1) == 0))
+//@   ensures implies(!skips(c, valType) && result2, !choice_missing(xn_nameset(c), xn_schema(c)))
+//@   ensures implies(!skips(c, valType) && result2, !absentUnder(xn_nameset(c), xn_schema(c)))
+//@   ensures implies(!skips(c, valType) && !result2, absentUnder(xn_nameset(c), xn_schema(c)) || choice_missing(xn_nameset(c), xn_schema(c)))
+//@   loop 0 invariant forall(i, 0, loopidx+1, implies(wanted(xn_schema(c), i), inmap(mandNodes, node_name(sch_child(xn_schema(c), i))) && mandNodes[node_name(sch_child(xn_schema(c), i))] == sch_child(xn_schema(c), i)))
+//@   loop 0 invariant forallstr(k, implies(inmap(mandNodes, k), exists(i, 0, loopidx+1, node_name(sch_child(xn_schema(c), i)) == k && wanted(xn_schema(c), i) && mandNodes[k] == sch_child(xn_schema(c), i))))
+//@   loop 1 invariant forallstr(k, inmap(cfgCh, k) == exists(i, 0, loopidx+1, xn_childname(c, i) == k))
+//@   loop 2 invariant keyset(cfgCh) == xn_nameset(c) && len(errs) >= 0 && (len(errs) == 0 || isfresh(errs))
+//@   loop 2 invariant iff(len(errs) > 0, exists(i, 0, sch_nchildren(xn_schema(c)), wanted(xn_schema(c), i) && visited(node_name(sch_child(xn_schema(c), i))) && !inmap(cfgCh, node_name(sch_child(xn_schema(c), i))) && mandAbsent(sch_child(xn_schema(c), i))))
